@@ -69,6 +69,30 @@ def measure(ctx, rnd):
     return {"MemberTakes": member, "FragPre": fragpre, "frames": sent, "drawn": [d3, dfrag]}, sc
 
 
+def apalache_induction():
+    """-> dict of outcomes; raises Machinery when Apalache cannot be run or contradicts the expectation."""
+    import os
+    import shutil
+    import subprocess
+    d = os.path.join(tlc.SPEC, "apalache")
+    out = os.path.join(core.OUT, "apalache")
+    res = {}
+    for name, args, expect in (("init=>inv", ["--cinit=CInit", "--init=Init", "--inv=IndInv", "--length=0"], "NoError"),
+                               ("inv/\\next=>inv'", ["--cinit=CInit", "--init=IndInit", "--inv=IndInv", "--length=1"], "NoError"),
+                               ("original design (a member draws a count) breaks it", ["--cinit=CInitOrig", "--init=IndInit", "--inv=IndInv", "--length=1"], "Error")):
+        try:
+            p = subprocess.run(["apalache-mc", "check", "--out-dir=" + out] + args + ["SeqCountInd.tla"], cwd=d, stdout=subprocess.PIPE,
+                               stderr=subprocess.STDOUT, text=True, timeout=900)
+        except (OSError, subprocess.TimeoutExpired) as ex:
+            raise core.Machinery("apalache-mc could not be run: %r" % ex)
+        got = "NoError" if "The outcome is: NoError" in p.stdout else "Error" if "The outcome is: Error" in p.stdout else "?"
+        if got != expect:
+            raise core.Machinery("Apalache %s: expected %s, got %s\n%s" % (name, expect, got, p.stdout[-1500:]))
+        res[name] = got
+    shutil.rmtree(out, ignore_errors=True)
+    return res
+
+
 def se_val(e):
     from ..values import from_term
     return from_term(e["result"]["value"])
@@ -100,6 +124,16 @@ def run(ctx):
             if r.violated != "Fresh":
                 raise core.Machinery("SeqCount: " + r.out[-1500:])
             ctx.extra["design_counterexample_modulus_%d" % n] = "shortest history repeating a count exists (scaled); the real-scale replay below decides"
+    # unbounded side check (Apalache): the inductive invariant "the count sent last is the predecessor of the next count"
+    # holds for the real modulus 65535 and histories of any length when an operation draws 0 or 1 unsent counts first (the
+    # measured design); SeqCountEq (TLC) ties the closed forms used there to SeqCount's recursive definitions
+    if ms["MemberTakes"] == 0 and ms["FragPre"] in (0, 1):
+        for n in (1, 2, 5, 7):
+            r = tlc.must_pass(tlc.run("SeqCountEq", "SeqCountEq_%d.cfg" % n, workers=2, timeout=300), "SeqCountEq")
+            ctx.add_tlc(r, "R1")
+        ctx.extra["apalache"] = apalache_induction()
+    else:
+        ctx.extra["apalache"] = "skipped: the measured design is not the one SeqCountInd.tla states"
     # R3
     scs = [msc]
     o, script = ops(rnd)
